@@ -68,6 +68,7 @@ class Script:
         self.measure_depth = measure_depth
         self.lib_root = lib_root
         self.unawaited = []
+        self.coros = []
         self.policy = policy
         self._first_trigger = None
         self._cur_trigger = None
@@ -274,6 +275,9 @@ class Acceptor:
         self.fired = []  # (event, transition index in am, src, tgt)
         self.depths = []
         self.nested_happened = False
+        # diagnosis only: judge the conjunction over these providers and every other provider of the name on its own
+        self.unless_anyfalsy_group = None
+        self.forced_reads = {}  # diagnosis only: (provider, name) -> value assumed although never logged
 
     # ------------------------------------------------------------------ log access
     def peek(self):
@@ -378,8 +382,7 @@ class Acceptor:
     # ------------------------------------------------------------------ guards of one candidate
     def guards(self, t, ev, src, queue):
         exp = expected_group(self.am, t, ev, "cond")
-        names = {n for _p, n in exp}
-        reads = {}
+        reads = {k: v for k, v in self.forced_reads.items() if k in exp}
         open_ = {}
         while True:
             rec = self.peek()
@@ -403,7 +406,20 @@ class Acceptor:
             raise Reject("guard-not-completed", f"guard(s) {sorted(open_.values())} of {t['src']}->{t['tgt']} still running when {brief(self.peek())}")
         status = "pass"
         for entry, expected in [(c, True) for c in t.get("cond", [])] + [(u, False) for u in t.get("unless", [])]:
-            vals = [reads.get((p, entry), UNSET) for p, n in exp if n == entry]
+            provs = [p for p, n in exp if n == entry]
+            if expected is False and len(provs) > 1:
+                # the value of a name provided by several objects is the conjunction of their values; `unless` wants it falsy
+                group = [p for p in provs if self.unless_anyfalsy_group is None or p in self.unless_anyfalsy_group]
+                grp = [reads.get((p, entry), UNSET) for p in group]
+                rest = [reads.get((p, entry), UNSET) for p in provs if p not in group]
+                if any(v is False for v in grp):
+                    vals = rest
+                elif all(v is True for v in grp):
+                    vals = [True]
+                else:
+                    vals = [UNSET]
+            else:
+                vals = [reads.get((p, entry), UNSET) for p in provs]
             if any(v is not UNSET and v != expected for v in vals):
                 status = "fail"
                 break
@@ -513,6 +529,19 @@ def same_value(a, b):
     if isinstance(a, bool) != isinstance(b, bool):
         return False
     return True if a == b else False
+
+
+def never_started(script):
+    """(provider, name) of coroutine callbacks that were called but whose coroutine was never started."""
+    import inspect
+
+    out = []
+    for provider, name, c in script.coros:
+        if inspect.getcoroutinestate(c) == inspect.CORO_CREATED:
+            out.append((provider, name))
+            c.close()
+    del script.coros[:]
+    return out
 
 
 def outcome_of(fn, sm):
